@@ -245,6 +245,19 @@ def main():
             checks += [onp.all(grad_named(_M().meth, "a_")(a, b) == 2.0 * a * b * p), onp.all(grad_named(_M().meth, "b_")(a, b) == a * a * p),
                        onp.all(grad_named(_M.cmeth, "b_")(a, b) == a * a * p), onp.all(grad_named(_M.smeth, "a_")(a, b) == 2.0 * a * b * p),
                        onp.all(grad_named(_M().smeth, "b_")(a, b) == a * a * p)]
+            # ... on callable objects and partial applications (the call takes the parameters that remain)
+            import functools as _ft
+
+            class _Callable:
+                def __call__(self, a_, b_):
+                    return anp.sum(a_ * a_ * b_) * p
+
+            def _three(c_, a_, b_):
+                return anp.sum(a_ * a_ * b_) * c_
+            checks += [neg(lambda: onp.all(grad_named(_Callable(), "a_")(a, b) == 2.0 * a * b * p)),
+                       neg(lambda: onp.all(grad_named(_Callable(), "b_")(a, b) == a * a * p)),
+                       neg(lambda: onp.all(grad_named(_ft.partial(_three, p), "b_")(a, b) == a * a * p)),
+                       neg(lambda: onp.all(grad_named(_ft.partial(_three, p), "a_")(a, b) == 2.0 * a * b * p))]
             # one operator OBJECT applied at several points / extra arguments: whatever an earlier application returned
             # keeps belonging to ITS arguments, also when it is evaluated after the later applications
             op_j, op_v = make_jvp(fun, 1), make_vjp(fun, 3)
